@@ -9,10 +9,10 @@ SIM_NOTE = ("Trusted base: the harness (scripted actor, client interpreter, trac
 CHECKS = {
  "C01": ("generated concurrent scenarios in a deterministic virtual-time simulation of the real rsactor code; history invariant over uniquely tagged messages (handled <=1; rejected never; accepted-before-stop/drop exactly once before on_stop; nothing pending on a live idle actor at quiescence)", "5/C01"),
  "C02": ("generated multi-sender scenarios on capacity 1-3 mailboxes; oracle: no inversion between real-time order of completed sends and handler-entry order; stop() position in the same order", "5/C02"),
- "C03": ("generated concurrent askers against actors ending by every cause; oracle: reply value carries request id + per-handler nonce that must match the trace; ask_join vs scripted job outcome; no operation pending on an ended actor at quiescence; later sends fail at once; plus a generated real-thread experiment (asks issued at the moment the actor ends by panic / stop / kill / last drop must all return)", "5/C03"),
+ "C03": ("generated concurrent askers against actors ending by every cause; oracle: reply value carries request id + per-handler nonce that must match the trace; ask_join vs scripted job outcome; no operation pending on an ended actor at quiescence; later sends fail at once; plus a generated real-thread experiment (4 lanes x streams of asks from 1-12 askers straddling the moment the actor ends by panic / stop / kill / last drop: every ask must return)", "5/C03"),
  "C04": ("generated termination causes x hook outcomes x phases; oracle: per-actor regular language over hook events, on_stop exactly-once rules, killed flag iff a kill signal could have been consumed", "5/C04"),
  "C05": ("same generator as C04; oracle: expected ActorResult recomputed from the hook trace alone (phase, killed, error tag, presence and state of the instance, panic payload) + accessor laws on every real result", "5/C05"),
- "C06": ("generated kill() instants with 0-64 queued messages in every actor phase; oracle: kill never fails/blocks, <=1 handler entry after kill returned, on_stop(killed=true) with no idle gap, result killed=true, queued asks fail", "5/C06"),
+ "C06": ("generated kill() instants with 0-64 queued messages in every actor phase; oracle: kill never fails/blocks, <=1 handler entry after kill returned, on_stop(killed=true) with no idle gap, result killed=true, queued asks fail (once the hook in progress finishes); plus a generated real-thread experiment (2-6 OS threads calling kill() on one actor at the same instant, kill() hammered while the actor is stopped and joined: every call Ok, JoinHandle resolves, killed=true)", "5/C06"),
  "C07": ("generated clone/drop/downgrade/upgrade/erase histories; model = number of strong handles the harness holds; oracle at quiescence: ended gracefully iff unreferenced or stopped; still serving otherwise (probe ask/tell)", "5/C07"),
  "C08": ("generated on_run scripts with message arrivals around their await points; oracle at every on_run progress event: no accepted-unhandled message, no returned kill; Ok(true) re-arms, Ok(false) silences for good without ending the actor, Err -> on_stop(false)", "5/C08"),
  "C09": ("generated capacities/senders/gates; occupancy lower and upper bounds recomputed from the trace at every event and every quiescent instant (accepted <= capacity; a waiting sender implies a full mailbox); Send errors only on ending actors", "5/C09"),
@@ -22,7 +22,7 @@ CHECKS = {
 
 CHECKS.update({
  "C12": ("fault injection (panic / error in a generated hook invocation of one actor of a 2-4 actor system with peer asks/tells); every other monitor is applied to the whole system plus victim-specific checks, a fresh actor spawned afterwards, dead-letter accounting and (deadlock-detection build) wait-for-graph residue / mutex health", "5/C12"),
- "C13": ("generated operations against actors in every lifecycle state; dead-letter records captured by an in-process tracing subscriber are matched one-to-one (points-to-intervals matching) against failed operations: target id, message type name, reason <-> error kind, operation label; dead_letter_count() delta == number of failures", "5/C13"),
+ "C13": ("generated operations against actors in every lifecycle state; dead-letter records captured by an in-process tracing subscriber are matched one-to-one (points-to-intervals matching) against failed operations: target id, message type name, reason <-> error kind, operation label; dead_letter_count() delta == number of failures; plus a generated real-thread experiment (2-16 OS threads x 50-450 failing operations each: counter delta == records == failures)", "5/C13"),
  "C14": ("generated ask topologies (cycles of length 1..5 through handlers and lifecycle hooks, ask and ask_with_timeout); logical wait-for graph of unanswered asks rebuilt from the trace; every ask that would close a cycle must panic naming every participant and nobody may be left waiting", "5/C14"),
  "C15": ("same topology generator, acyclic-in-time patterns with timeouts / cancellations / failures; every deadlock panic must be justified by a chain of unanswered asks; the real wait-for graph (verification hook) sampled at every odd virtual millisecond must equal the set of asks in flight", "5/C15"),
  "C16": ("metamorphic differential: each scenario run with plain handles and with every handle as a bundle of type-erased trait objects and every operation routed through a pseudo-randomly chosen equivalent erased path; canonical traces must be equal", "5/C16"),
